@@ -476,6 +476,8 @@ def call_method(ip, st, recv, name, args, kwargs):
 
 def b_len(ip, st, x):
     x = st.force(x)
+    if hasattr(x, "py_force"):
+        x = x.py_force(st)  # a lazily decoded value (protocol.force_lazy)
     if isinstance(x, ModelObj):
         return x.py_len(st)
     if type(x).__name__ == "SText":
